@@ -117,3 +117,8 @@ func (c *Server) VerifRoutines() int {
 	}
 	return 0
 }
+
+// VerifTree returns the tree stored under id, or nil.
+func (o *Overlay) VerifTree(id TreeID) *Tree {
+	return o.treeStorage.Get(id)
+}
